@@ -537,16 +537,26 @@ structure Cfg where
   lostFlag : Nat       -- 0 = FLAG_DECODE_NORMAL, 2 = FLAG_DECODE_LBRR
   deriving Repr, DecidableEq
 
-/-- One frame of one channel through `silk_decode_indices` + `silk_decode_pulses`
-    (decode_frame.c:83-89, dec_API.c:270-272): events, updated channel, ctx. -/
-def decodeOne (cfg : Cfg) (n frameIndex decodeLbrr cc : Nat) (ch : Chan) (c : Dec) : List Ev × Chan × Dec :=
-  match decodeIndices cfg.rate cfg.nbSubfr (decide (decodeLbrr ≠ 0 ∨ ch.vad.getD frameIndex 0 ≠ 0)) cc
-          ch.ecPrevSignalType ch.ecPrevLagIndex c with
+/-- `silk_decode_indices` + `silk_decode_pulses` for one frame (decode_frame.c:83-89, dec_API.c:270-272) with the
+    three things they read from the channel state passed explicitly: events, indices, ctx. -/
+def decodeOneCore (cfg : Cfg) (n frameIndex decodeLbrr cc : Nat) (vadOrLbrr : Bool) (prevSig : Nat) (prevLag : Int)
+    (c : Dec) : List Ev × Indices × Dec :=
+  match decodeIndices cfg.rate cfg.nbSubfr vadOrLbrr cc prevSig prevLag c with
   | (ix, c1) =>
   match decodePulses ix.signalType ix.quantOffsetType (frameLength cfg.rate cfg.nbSubfr) c1 with
   | (pu, c2) =>
-    ([.indices n frameIndex decodeLbrr cc cfg.rate cfg.nbSubfr ch.ecPrevSignalType ch.ecPrevLagIndex ix,
-      .pulses ix.signalType ix.quantOffsetType (frameLength cfg.rate cfg.nbSubfr) pu],
+    ([.indices n frameIndex decodeLbrr cc cfg.rate cfg.nbSubfr prevSig prevLag ix,
+      .pulses ix.signalType ix.quantOffsetType (frameLength cfg.rate cfg.nbSubfr) pu], ix, c2)
+
+/-- One frame of one channel: events, updated channel, ctx.  `ec_prevSignalType` / `ec_prevLagIndex` are read by
+    the C code only under `condCoding == CODE_CONDITIONALLY` — the lag index only if in addition the previous
+    signal type is voiced (decode_indices.c:107); the model hands them over only then (and `0` otherwise), which is what makes the symbol reads visibly independent of stale state. -/
+def decodeOne (cfg : Cfg) (n frameIndex decodeLbrr cc : Nat) (ch : Chan) (c : Dec) : List Ev × Chan × Dec :=
+  match decodeOneCore cfg n frameIndex decodeLbrr cc (decide (decodeLbrr ≠ 0 ∨ ch.vad.getD frameIndex 0 ≠ 0))
+          (if cc = 2 then ch.ecPrevSignalType else 0)
+          (if cc = 2 ∧ ch.ecPrevSignalType = 2 then ch.ecPrevLagIndex else 0) c with
+  | (evs, ix, c2) =>
+    (evs,
      { ch with ecPrevSignalType := ix.signalType,
                ecPrevLagIndex := if ix.signalType = 2 then ix.lagIndex else ch.ecPrevLagIndex },
      c2)
